@@ -23,6 +23,8 @@ type dOp struct {
 	Name B      `json:"name,omitempty"`
 	Tags []kv   `json:"tags,omitempty"`
 	Kind int    `json:"kind,omitempty"` // 1 counter, 2 gauge, 3 timer, 4 histogram
+	// tag: the caller hands Tagged the very map object of the previous Tagged call, refilled
+	Reuse bool `json:"reuse,omitempty"`
 }
 
 type keyIn struct {
@@ -441,6 +443,7 @@ func derivRun(c *dCase) (o *derivOut) {
 	var prevSnap [5][]delivery
 
 	closedH := map[int]bool{}
+	var lastTagMap map[string]string // the map object of the most recent Tagged call
 	for _, op := range c.Ops {
 		if op.H < 0 || op.H >= len(scopes) || closedH[op.H] {
 			continue
@@ -458,6 +461,19 @@ func derivRun(c *dCase) (o *derivOut) {
 			} else {
 				o.in = append(o.in, Ev{K: 2, I: []int64{int64(op.H)}, S: flatPairs(op.Tags)})
 				m := pairsMap(op.Tags)
+				if op.Reuse && lastTagMap != nil {
+					// a caller's scratch map: emptied, refilled, handed in again
+					for k := range lastTagMap {
+						delete(lastTagMap, k)
+					}
+					for k, v := range m {
+						lastTagMap[k] = v
+					}
+					m = lastTagMap
+				}
+				if m != nil {
+					lastTagMap = m
+				}
 				before := copyMap(m)
 				s = parent.Tagged(m)
 				if !mapsEqual(m, before) {
@@ -732,6 +748,9 @@ func derivC05(c *dCase, o *derivOut) []dFail {
 	for j := range o.scopeCls {
 		for i := 0; i < j; i++ {
 			same := identEq(o.idents[i], o.idents[j])
+			if c.Stream == "near-delims" && !same && refKey(o.idents[i].prefix, o.idents[i].tags) == refKey(o.idents[j].prefix, o.idents[j].tags) {
+				continue // a collision of the documented format itself: F05b, reported by its own witnesses
+			}
 			if same && o.scopeCls[i] != o.scopeCls[j] && ((o.fixedH[i] && o.fixedH[j]) || c.Shards == 1) {
 				fs = append(fs, dFail{"same_identity_same_scope", fmt.Sprintf("scope handles %d and %d both denote (%q, %q) but are different scopes", i, j, o.idents[i].prefix, o.idents[i].tags)})
 			}
@@ -743,6 +762,10 @@ func derivC05(c *dCase, o *derivOut) []dFail {
 	for j := range o.metCls {
 		for i := 0; i < j; i++ {
 			same := identEq(o.idents[o.metScope[i]], o.idents[o.metScope[j]]) && o.metKind[i] == o.metKind[j] && o.metName[i] == o.metName[j]
+			if c.Stream == "near-delims" && !identEq(o.idents[o.metScope[i]], o.idents[o.metScope[j]]) &&
+				refKey(o.idents[o.metScope[i]].prefix, o.idents[o.metScope[i]].tags) == refKey(o.idents[o.metScope[j]].prefix, o.idents[o.metScope[j]].tags) {
+				continue
+			}
 			if same && o.metCls[i] != o.metCls[j] && ((o.fixedH[o.metScope[i]] && o.fixedH[o.metScope[j]]) || c.Shards == 1) {
 				fs = append(fs, dFail{"same_identity_same_metric", fmt.Sprintf("metric steps %d and %d ask the same scope identity for the same kind and name %q but got different metrics", i, j, o.metName[i])})
 			}
@@ -869,7 +892,28 @@ func derivOne(ctx *Ctx, c *dCase, prop string) {
 				canonical = false
 			}
 		}
-		if len(c.Keys) == 2 {
+		// the documented format, for inputs without a delimiter anywhere: prefix '+' then the
+		// bindings sorted by key as k=v joined by ',' (independent computation: refKey)
+		if c.Stream != "empty-key" {
+			for i, k := range c.Keys {
+				free := !strings.ContainsAny(string(k.Prefix), "+,=")
+				for _, p := range k.Map {
+					free = free && !strings.ContainsAny(string(p[0]), "+,=") && !strings.ContainsAny(string(p[1]), "+,=")
+				}
+				if want := refKey(string(k.Prefix), pairsMap(k.Map)); free && outs[i].key != want {
+					fails = append(fails, dFail{"key_is_documented_format", fmt.Sprintf("KeyForPrefixedStringMap(%q, %q) = %q; prefix, keys and values hold no delimiter, so the key must be %q", k.Prefix, pairsMap(k.Map), outs[i].key, want)})
+				}
+			}
+		}
+		if len(c.Keys) == 2 && c.Stream == "near-delims" {
+			// one of the two holds a delimiter (F05b's region), yet their documented keys differ:
+			// they are two identities and must not get one key
+			a, b := c.Keys[0], c.Keys[1]
+			ra, rb := refKey(string(a.Prefix), pairsMap(a.Map)), refKey(string(b.Prefix), pairsMap(b.Map))
+			if ra != rb && outs[0].key == outs[1].key {
+				fails = append(fails, dFail{"distinct_identities_distinct_keys", fmt.Sprintf("(%q, %q) and (%q, %q) share the key %q although their keys in the documented format, %q and %q, differ", a.Prefix, pairsMap(a.Map), b.Prefix, pairsMap(b.Map), outs[0].key, ra, rb)})
+			}
+		} else if len(c.Keys) == 2 {
 			a, b := c.Keys[0], c.Keys[1]
 			same := a.Prefix == b.Prefix && mapsEqual(pairsMap(a.Map), pairsMap(b.Map))
 			if same && outs[0].key != outs[1].key {
